@@ -2,17 +2,17 @@
    libwild/src/file_writer.rs (Output::new / set_size / write / remove_after_failed_link, default_file_write_mode,
    SizedOutput::new with its ETXTBSY fallback, delete_old_output) and libwild/src/lib.rs (link_for_arch).
    Shared by C18 (failed links), C19 (only declared outputs change) and C21 (running programs).
-   Kernel rules used: rename replaces its target; unlink removes a name, the inode lives on while it is mapped or
+   Kernel rules used: rename replaces its target (and needs write permission on the directory, as unlink does); unlink removes a name, the inode lives on while it is mapped or
    executing; opening an inode that is being executed for writing fails with ETXTBSY; a process that executes or
    maps an inode sees in-place modifications of it. *)
 From Coq Require Import NArith List Bool.
 Import ListNotations.
 Open Scope N_scope.
 
-Inductive path := Out | OutDelete | Side (n : N) | Other (n : N).
+Inductive path := Out | Side (n : N) | Other (n : N).
 Definition path_eqb (a b : path) : bool :=
   match a, b with
-  | Out, Out | OutDelete, OutDelete => true
+  | Out, Out => true
   | Side x, Side y | Other x, Other y => x =? y
   | _, _ => false
   end.
@@ -35,6 +35,10 @@ Definition rename (s : fs) (p q : path) : fs * bool :=
   | None => (s, false)
   end.
 Definition unlink (s : fs) (p : path) : fs := bind_name s p None.
+(* the same two under directory permissions: without write permission on the directory they fail and change nothing
+   (file_writer.rs ignores both failures) *)
+Definition rename_w (w : bool) (s : fs) (p q : path) : fs * bool := if w then rename s p q else (s, false).
+Definition unlink_w (w : bool) (s : fs) (p : path) : fs := if w then unlink s p else s.
 Definition new_file (s : fs) (p : path) (c : content) : fs :=
   let i := next_ino s in
   {| names := fun q => if path_eqb q p then Some i else names s q;
@@ -51,6 +55,8 @@ Record cfg := {
   forced : option wmode;         (* --update-in-place / --no-update-in-place *)
   background : bool;             (* more than one thread: the file is created from set_size *)
   busy : bool;                   (* the old output is being executed (ETXTBSY on open for write) *)
+  tmp : path;                    (* unused_sibling_path: where the old output is parked before it is deleted *)
+  dir_writable : bool;           (* may names in the output directory be removed / renamed *)
   stop_at : stop;
   crash : bool }.
 
@@ -69,7 +75,8 @@ Definition create_output (c : cfg) (m : wmode) (s : fs) : option fs :=
   | Some i =>
       if busy c then
         match m with
-        | UpdateInPlaceWithFallback => Some (new_file (unlink s Out) Out (Fresh false))
+        | UpdateInPlaceWithFallback =>
+            if dir_writable c then Some (new_file (unlink s Out) Out (Fresh false)) else None   (* remove_file(&path)? *)
         | _ => None
         end
       else
@@ -84,8 +91,8 @@ Definition on_set_size (c : cfg) (m : wmode) (s : fs) : option fs :=
   if background c then
     let s1 := match m with
               | UnlinkAndReplace =>
-                  let (s', ok) := rename s Out OutDelete in
-                  if ok then unlink s' OutDelete else s'
+                  let (s', ok) := rename_w (dir_writable c) s Out (tmp c) in
+                  if ok then unlink s' (tmp c) else s'
               | _ => s
               end in
     create_output c m s1
@@ -93,18 +100,18 @@ Definition on_set_size (c : cfg) (m : wmode) (s : fs) : option fs :=
 
 (* Output::write up to the point where write_fn starts *)
 Definition on_write_start (c : cfg) (m : wmode) (s : fs) : option fs :=
-  if background c then Some s else create_output c m (unlink s Out).
+  if background c then Some s else create_output c m (unlink_w (dir_writable c) s Out).
 
 Definition fill (s : fs) (complete : bool) : fs :=
   match names s Out with Some i => set_data s i (Fresh complete) | None => s end.
 
 (* remove_after_failed_link: only if this link has started replacing the file, and only an ordinary file *)
-Definition cleanup (started : bool) (s : fs) : fs := if started then unlink s Out else s.
+Definition cleanup (w started : bool) (s : fs) : fs := if started then unlink_w w s Out else s.
 
 (* the whole link: (final file system, exit status is zero) *)
 Definition link (c : cfg) (s0 : fs) : fs * bool :=
   let m := mode_of c s0 in
-  let fail (started : bool) (s : fs) := (if crash c then s else cleanup started s, false) in
+  let fail (started : bool) (s : fs) := (if crash c then s else cleanup (dir_writable c) started s, false) in
   match stop_at c with
   | Early => fail false s0
   | _ =>
